@@ -401,3 +401,17 @@ package immutable
 //@     frame nothing
 //@   loop 1
 //@     invariant n == rangeindex + 1
+
+// ================================================================ C07: the single-value block layout
+//@ prop C07
+// A segment holding one row may store just the value's bytes ("one value" block). The reader takes an EMPTY payload
+// for NULL - so the writer may choose this layout only for a non-empty payload of at most 15 bytes (a non-null empty
+// string does not qualify), and the reader rebuilds exactly one row, null iff the payload is empty.
+//@ func CanEncodeOneRowMode
+//@   requires col != nil
+//@   ensures [one_value_layout_only_for_a_nonempty_payload] result ==> col.Len == 1 && len(col.Val) > 0 && len(col.Val) < 16
+//@   assigns nothing
+//@ func DecodeColumnOfOneValue
+//@   requires col != nil
+//@   ensures [one_row] col.Len == 1
+//@   ensures [null_iff_empty_payload] (len(data) == 0 ==> col.NilCount == 1 && len(col.Val) == 0) && (len(data) > 0 ==> col.NilCount == 0 && len(col.Val) == len(data))
